@@ -253,8 +253,13 @@ def rib_state(wd):
             out[n] = None
             continue
         rib = p.neighbor.rib.outgoing
-        out[n] = (tuple(sorted(str(r.nlri) for r in rib.cached_routes())), tuple(sorted(str(r.nlri) for r in rib._new_nlri.values())),
-                  tuple(sorted(str(nl) for fam in rib._pending_withdraws.values() for nl, _ in fam.values())), len(rib._refresh_routes),
+        try:
+            queues = (tuple(sorted(str(r.nlri) for r in rib._new_nlri.values())),
+                      tuple(sorted(str(nl) for fam in rib._pending_withdraws.values() for nl, _ in fam.values())), len(rib._refresh_routes))
+        except AttributeError:
+            # the queues are no longer kept under these names: "is anything waiting to be sent" is all that is left to compare
+            queues = (rib.pending(), None, None)
+        out[n] = (tuple(sorted(str(r.nlri) for r in rib.cached_routes())), queues[0], queues[1], queues[2],
                   tuple(sorted((str(r.nlri), f'next-hop {r.nexthop} {r.attributes}') for r in rib.cached_routes())))
     return out
 
